@@ -26,13 +26,16 @@ inductive Kind where
   | cap (num den : Nat)                   -- ReduceCapacity, factor num/den
 deriving Repr, DecidableEq
 
-/-- one scheduled fault: its window `[s, r)` (`r = none`: permanent) and whether its handle is
-    cancelled before activation -/
+/-- one window: a scheduled fault with its window `[s, r)` (`r = none`: permanent) and whether its
+    handle is cancelled before the run starts — or (`manual`) a partition created by a direct call of
+    `Network.partition()` at time `s`, ended by `Partition.heal()` calls at times chosen by the
+    workload (any number of them, also none) -/
 structure Fault where
   kind : Kind
   s : Nat
   r : Option Nat
   cancelled : Bool
+  manual : Bool := false
 deriving Repr, DecidableEq
 
 /-- one instruction of a generator handler; every `sleep`/`emit`/`wait`/`acq` is one `yield` -/
@@ -70,6 +73,9 @@ structure Case where
   faults : List Fault := []
   jobs : List Job := []
   probes : List Probe := []
+  /-- faults whose handle was cancelled before the `Simulation` was built (a subset of the faults
+      with `cancelled = true`; only used to name the trigger in a judge signature) -/
+  preCanc : List Nat := []
 deriving Repr
 
 def Case.baseLat (c : Case) (a b : Nat) : Nat :=
@@ -78,13 +84,20 @@ def Case.baseLat (c : Case) (a b : Nat) : Nat :=
 def Case.baseLoss (c : Case) (a b : Nat) : Nat :=
   ((c.links.find? fun l => l.a == a && l.b == b).map (·.loss)).getD 0
 
+/-- handles cancelled before the run starts (`FaultHandle.cancel()` before or right after the
+    `Simulation` is built) -/
+def Case.initCanc (c : Case) : List Nat :=
+  (List.range c.faults.length).filter fun f => ((c.faults[f]?).map (·.cancelled)).getD false
+
 def Case.job (c : Case) (j : Nat) : Job := c.jobs.getD j ⟨0, []⟩
 def Case.probe (c : Case) (p : Nat) : Probe := c.probes.getD p ⟨0, 0⟩
 
 /-- one processed event of the real run, in processing order -/
 inductive Pop where
-  | fault (t fid : Nat) (act : Bool)   -- activation / deactivation event of fault `fid`
+  | fault (t fid : Nat) (act : Bool)   -- activation / deactivation event of fault `fid`; for a manual
+                                       -- partition: the `Network.partition()` / a `Partition.heal()` call
   | cancel (t fid : Nat)               -- harness event that calls `FaultHandle.cancel`
+  | healall (t : Nat)                  -- harness event that calls `Network.heal_partition()`
   | job (t j : Nat) (cont : Bool)      -- arrival (`cont = false`) or continuation of job `j`
   | sink (t j k : Nat)                 -- the emission of op `k` of job `j` reaches the sink
   | nsend (t p : Nat)                  -- probe `p` reaches the Network entity
@@ -93,7 +106,7 @@ inductive Pop where
 deriving Repr, DecidableEq
 
 def Pop.time : Pop → Nat
-  | .fault t _ _ | .cancel t _ | .job t _ _ | .sink t _ _ | .nsend t _ | .nhop t _ | .recv t _ => t
+  | .fault t _ _ | .cancel t _ | .healall t | .job t _ _ | .sink t _ _ | .nsend t _ | .nhop t _ | .recv t _ => t
 
 /-- scale of capacities and loss rates in transcripts -/
 def SC : Nat := 1024
